@@ -219,6 +219,14 @@ func (b *Blob) Set(src blob.Blob, destStart int64) (n int, err error) {
 		return 0, fmt.Errorf("Offset out of bounds: %d", destStart)
 	}
 
+	if room := int64(b.Len()) - destStart; room >= 0 && int64(src.Len()) > room {
+		// copy what fits, like Bytes.Set (a typed array's set() throws instead)
+		src, err = blob.View(src, 0, room)
+		if err != nil {
+			return 0, err
+		}
+	}
+
 	bValue := safejs.Safe(b.JSValue())
 	srcValue := safejs.Safe(FromBlob(src).JSValue())
 	_, err = bValue.Call("set", srcValue, destStart)
